@@ -221,6 +221,14 @@ func uriRT(s uriSpec) string {
 	// and into a long-lived URI that parsed something else before
 	reusedURI.Parse(nil, []byte("https://dirty.host:1/dirty/path?dq=1&token=secret&b=2#dirtyfrag"))
 	reusedURI.QueryArgs().Len()
+	switch (len(s.host) + len(s.rawQuery)) % 3 {
+	case 1:
+		// ... and whose previous owner took an argument out of the middle (a redacted token)
+		reusedURI.QueryArgs().Del("token")
+	case 2:
+		reusedURI.QueryArgs().Del("dq")
+		reusedURI.QueryArgs().Add("later", "v")
+	}
 	reusedURI.Parse(nil, []byte(full))
 	reusedURI.DisablePathNormalizing = s.noNorm
 	if !bytes.Equal(reusedURI.FullURI(), v.FullURI()) || reusedURI.QueryArgs().String() != v.QueryArgs().String() {
@@ -412,6 +420,10 @@ func work(w *mon.W) {
 				s.qk, s.qv = rs(r, 3, alphaR)+"k", rs(r, 4, alphaR)
 			} else {
 				s.rawQuery = "k=" + url.QueryEscape(rs(r, 4, alphaR))
+				if r.Chance(3) {
+					// several arguments (the reused URI's slots are all taken again)
+					s.rawQuery += r.Str("&x=0", "&x=0&y=1&z=2&w=3", "&zz=a+b&w=")
+				}
 			}
 			w.Count("uri_roundtrips", 1)
 			w.Count("roundtrips", 1)
